@@ -146,6 +146,45 @@ func runC14(c *Ctx) {
 			s, e2 := stdjson.Marshal(v)
 			c.Oracle("e2e/containers", fmt.Sprintf("%T", v), fmt.Sprintf("%s err=%v", g, e1), string(s), e1 == nil && e2 == nil && string(g) == string(s), "")
 		}
+		// families of related types (T, *T, **T, ***T, []T, [2]T, map[string]T, []*T) in random order:
+		// each must be handled by its own program even though they share descriptors' neighbourhoods
+		// and, for run-time types, the fallback map
+		famBase := append([]reflect.Type{}, dyn...)
+		for _, i := range []int{0, 1, 2, 3, 450, 898, 899} {
+			famBase = append(famBase, reflect.TypeOf(c14Vals[i]))
+		}
+		type famCase struct {
+			t   reflect.Type
+			doc string
+		}
+		var fam []famCase
+		for _, t := range famBase {
+			name := t.Field(0).Tag.Get("json")
+			obj := fmt.Sprintf(`{"%s":5}`, name)
+			p1 := reflect.PtrTo(t)
+			p2 := reflect.PtrTo(p1)
+			fam = append(fam,
+				famCase{t, obj}, famCase{p1, obj}, famCase{p2, obj}, famCase{reflect.PtrTo(p2), obj},
+				famCase{reflect.SliceOf(t), "[" + obj + "," + obj + "]"},
+				famCase{reflect.ArrayOf(2, t), "[" + obj + "," + obj + "]"},
+				famCase{reflect.MapOf(reflect.TypeOf(""), t), `{"k":` + obj + `}`},
+				famCase{reflect.SliceOf(p1), "[" + obj + ",null]"},
+				famCase{p1, "null"}, famCase{p2, "null"})
+		}
+		for _, j := range c.Rng.Perm(len(fam)) {
+			fc := fam[j]
+			g := reflect.New(fc.t)
+			s := reflect.New(fc.t)
+			gerr := json.Unmarshal([]byte(fc.doc), g.Interface())
+			serr := stdjson.Unmarshal([]byte(fc.doc), s.Interface())
+			ok := (gerr == nil) == (serr == nil) && reflect.DeepEqual(g.Interface(), s.Interface())
+			c.Oracle("e2e/family-dec", fmt.Sprintf("%s <- %s", fc.t, fc.doc), fmt.Sprintf("%v err=%v", g.Elem().Interface(), gerr), fmt.Sprintf("%v err=%v", s.Elem().Interface(), serr), ok, "")
+			if serr == nil {
+				gb, e1 := json.Marshal(s.Elem().Interface())
+				sb, e2 := stdjson.Marshal(s.Elem().Interface())
+				c.Oracle("e2e/family-enc", fc.t.String(), fmt.Sprintf("%s err=%v", gb, e1), string(sb), e1 == nil && e2 == nil && string(gb) == string(sb), "")
+			}
+		}
 		for i, t := range dyn {
 			v := reflect.New(t)
 			v.Elem().Field(0).SetInt(int64(i))
